@@ -9,6 +9,7 @@ from __future__ import annotations
 
 import ast
 import copy
+from fractions import Fraction as _Fraction
 
 from .absval import (AIter, RepList, ASuper, Lin, Sym, Opaque, Ch, Run, Rep, AbsStr, AObj, AFunc, AModule, AClass, ABuiltin,
                      ABound, simplify_str, INF)
@@ -331,6 +332,14 @@ class Interp:
             if any(not isinstance(a, Run) for a in v.atoms):
                 return True
             raise CannotDecide("truth of %r" % v)
+        if isinstance(v, AObj) and v.cls is not None:
+            for dn in ("__bool__", "__len__"):
+                if self.repo.find_method(v.cls, dn) is not None:
+                    r = self.call_method(v, dn, [], {}, node)
+                    return self.truth(r, node) if dn == "__bool__" else self.compare(ast.NotEq, r, 0, node)
+            return True
+        if hasattr(v, "a_truth"):
+            return v.a_truth(self)
         if isinstance(v, (Ch, AObj, AFunc, AClass, AModule)):
             return True
         if isinstance(v, Opaque):
@@ -489,7 +498,7 @@ class Interp:
                     if i < len(vals):
                         atoms.append(vals[i])
                 return simplify_str(AbsStr(atoms))
-        conc = (int, float, str, list, tuple, bytes, bool)
+        conc = (int, float, str, list, tuple, bytes, bool, _Fraction)
         if isinstance(a, conc) and isinstance(b, conc) and not _has_abs(a) and not _has_abs(b):
             try:
                 return _PYBIN[op](a, b)
@@ -535,6 +544,8 @@ class Interp:
             return Opaque("format", [b])
         if isinstance(a, Opaque) or isinstance(b, Opaque):
             return Opaque("binop", [a, b])
+        if a is None or b is None:
+            raise RaiseEx("TypeError", node)
         raise CannotDecide("binop %s on %r, %r at %s" % (op.__name__, a, b, short(node) if node is not None else ""))
 
     def e_Compare(self, node, frame):
@@ -954,6 +965,8 @@ class Interp:
         return self.getattr(v, node.attr, node, frame)
 
     def getattr(self, v, name, node=None, frame=None):
+        if isinstance(v, _Fraction) and name in ("numerator", "denominator"):
+            return getattr(v, name)
         if hasattr(v, "a_getattr"):
             return v.a_getattr(self, name, node)
         if isinstance(v, ASuper):
@@ -1111,6 +1124,8 @@ class Interp:
                 return r
         if recv is None:
             raise RaiseEx("AttributeError", node)
+        if isinstance(recv, _Fraction) and name == "limit_denominator" and all(isinstance(a, int) for a in args):
+            return recv.limit_denominator(*args)
         if isinstance(recv, AClass) and name == "__subclasses__":
             return [AClass(c) for c in self.repo.subclasses(recv.ci)]
         if isinstance(recv, (set, frozenset)) and name in ("issubset", "issuperset", "union", "intersection") \
@@ -1292,11 +1307,30 @@ class Interp:
 
     def call_builtin(self, name, args, kwargs, node=None):
         args = [_unlin(a) for a in args]
+        if name in ("text_type", "ext:six.text_type"):
+            name = "str"
         if name in ("enumerate", "zip", "list", "tuple", "sorted", "reversed", "any", "all", "sum", "min", "max") \
                 and any(isinstance(a, AObj) and a.cls is not None and (self.repo.find_method(a.cls, "__getitem__") or self.repo.find_method(a.cls, "__iter__")) for a in args):
             args = [self.iterate(a, node) if (isinstance(a, AObj) and a.cls is not None and (self.repo.find_method(a.cls, "__getitem__") or self.repo.find_method(a.cls, "__iter__"))) else a for a in args]
         if name == "object.__init__":
             return None
+        if name in ("ext:fractions.Fraction", "Fraction") and args and all(isinstance(a, (int, float, str, _Fraction)) and not isinstance(a, bool) for a in args):
+            try:
+                return _Fraction(*args)
+            except (ValueError, ZeroDivisionError, TypeError) as e:
+                raise RaiseEx(type(e).__name__, node)
+        if name in ("reduce", "ext:functools.reduce") and len(args) >= 2 and isinstance(args[1], (list, tuple)):
+            seq = list(args[1])
+            if len(args) > 2:
+                seq = [args[2]] + seq
+            if not seq:
+                raise RaiseEx("TypeError", node)
+            acc = seq[0]
+            for x in seq[1:]:
+                acc = self.call(args[0], [acc, x], {}, node)
+            return acc
+        if name == "id" and args:
+            return id(args[0])
         if name == "print":
             return None
         if name in ("ext:binascii.b2a_hex", "b2a_hex") and args and isinstance(args[0], (bytes, bytearray)):
